@@ -1,6 +1,7 @@
 package dhcp
 
 import (
+	"bytes"
 	"context"
 	"crypto/rand"
 	"encoding/hex"
@@ -700,6 +701,12 @@ func (s *Server) handleRequest(req *dhcpv4.DHCPv4) (*dhcpv4.DHCPv4, error) {
 	s.leases[mac.String()] = lease
 	s.leasesMu.Unlock()
 
+	// The client renews from another circuit (same MAC, different Circuit-ID): the old
+	// circuit's bindings go now, no ending path looks for them under the new Circuit-ID
+	if existingLease != nil && len(existingLease.CircuitID) > 0 && !bytes.Equal(existingLease.CircuitID, lease.CircuitID) {
+		s.dropCircuitIDBindings(existingLease)
+	}
+
 	// Maintain circuit-ID secondary index for relay-aware lookup
 	if len(lease.CircuitID) > 0 {
 		cidKey := hex.EncodeToString(lease.CircuitID)
@@ -942,6 +949,27 @@ func (s *Server) handleRelease(req *dhcpv4.DHCPv4) {
 	}
 
 	atomic.AddUint64(&s.releasesTotal, 1)
+}
+
+// dropCircuitIDBindings removes the circuit-ID index entry and the circuit-id fast path
+// entries of a lease that is being replaced, provided the index still points at it
+// (another client may have taken the circuit over since).
+func (s *Server) dropCircuitIDBindings(old *Lease) {
+	cidKey := hex.EncodeToString(old.CircuitID)
+	s.leasesByCircuitIDMu.Lock()
+	owned := s.leasesByCircuitID[cidKey] == old
+	if owned {
+		delete(s.leasesByCircuitID, cidKey)
+	}
+	s.leasesByCircuitIDMu.Unlock()
+
+	if !owned || s.loader == nil {
+		return
+	}
+	s.loader.RemoveCircuitIDMapping(old.CircuitID)
+	if s.loader.HasCircuitIDSubscriberSupport() {
+		s.loader.RemoveCircuitIDSubscriber(old.CircuitID)
+	}
 }
 
 // releaseSessionServices ends what a lease holds besides its address and its cache
